@@ -41,28 +41,31 @@ const (
 	fForIn         // for(n in m){B}
 	fTryCatch      // try{B}catch(n){B2}
 	fTryCatchNoBinding
-	fFuncExprNamed  // (function n(){B});
-	fFuncExprParam  // (function(n){B});
-	fArrowParen     // ((n)=>{B});
-	fArrowSingle    // (n=>m);
-	fAsyncArrow     // (async n=>{B});
-	fParamDefault   // (function(n, p=n){B});
-	fDefaultOuter   // (function(p=n){B});
-	fLetObj         // let {n}=m;
-	fLetArr         // let [n]=m;
-	fSwitchLet      // switch(m){case 0:let n;B}
-	fParenList      // (n, m);
-	fParenAssign    // (n = m);
-	fParenObj       // ({n});
-	fLabel          // l: n;
-	fClassExprNamed // (class n{f(){B}});
-	fObjMethod      // ({f(n){B}});
-	fIfBlock        // if(n){B}else{B2}
-	fObjMethod0     // ({f(){B}});
-	fUseArr         // [n];
-	fUseObjKV       // ({k:n});
-	fArrowBare      // q=n=>m;   (no parentheses anywhere: the identifier is first read as a use)
-	fAsyncArrowBare // q=async n=>{B};
+	fFuncExprNamed    // (function n(){B});
+	fFuncExprParam    // (function(n){B});
+	fArrowParen       // ((n)=>{B});
+	fArrowSingle      // (n=>m);
+	fAsyncArrow       // (async n=>{B});
+	fParamDefault     // (function(n, p=n){B});
+	fDefaultOuter     // (function(p=n){B});
+	fLetObj           // let {n}=m;
+	fLetArr           // let [n]=m;
+	fSwitchLet        // switch(m){case 0:let n;B}
+	fParenList        // (n, m);
+	fParenAssign      // (n = m);
+	fParenObj         // ({n});
+	fLabel            // l: n;
+	fClassExprNamed   // (class n{f(){B}});
+	fObjMethod        // ({f(n){B}});
+	fIfBlock          // if(n){B}else{B2}
+	fObjMethod0       // ({f(){B}});
+	fUseArr           // [n];
+	fUseObjKV         // ({k:n});
+	fArrowBare        // q=n=>m;   (no parentheses anywhere: the identifier is first read as a use)
+	fAsyncArrowBare   // q=async n=>{B};
+	fDefaultOuterRest // (function(p=n,...r){B});
+	fStaticBlock      // (class{static{B}});   a var scope of its own
+	fArrowComputedKey // (({[[n]]:p})=>{B});   the key is an expression (here an array literal), not a binding
 	numForms
 )
 
@@ -74,7 +77,7 @@ type sk struct {
 
 func (f skForm) bodies() int {
 	switch f {
-	case fFuncDecl, fFuncDeclParam, fClassMethod, fBlock, fForLet, fForVarOf, fForConstOf, fForIn, fTryCatchNoBinding, fFuncExprNamed, fFuncExprParam, fArrowParen, fAsyncArrow, fParamDefault, fDefaultOuter, fSwitchLet, fClassExprNamed, fObjMethod, fObjMethod0, fAsyncArrowBare:
+	case fFuncDecl, fFuncDeclParam, fClassMethod, fBlock, fForLet, fForVarOf, fForConstOf, fForIn, fTryCatchNoBinding, fFuncExprNamed, fFuncExprParam, fArrowParen, fAsyncArrow, fParamDefault, fDefaultOuter, fSwitchLet, fClassExprNamed, fObjMethod, fObjMethod0, fAsyncArrowBare, fDefaultOuterRest, fStaticBlock, fArrowComputedKey:
 		return 1
 	case fTryCatch, fIfBlock:
 		return 2
@@ -298,9 +301,19 @@ func (r *resolver) declare(list []*sk, s *rscope, funcLevel bool) {
 			r.declParam(fs, "p")
 			r.scopeOf[k] = []*rscope{fs}
 			r.declare(k.b1, fs, true)
-		case fDefaultOuter:
+		case fDefaultOuter, fArrowComputedKey:
 			fs := newScope(scFunc, s)
 			r.declParam(fs, "p")
+			r.scopeOf[k] = []*rscope{fs}
+			r.declare(k.b1, fs, true)
+		case fDefaultOuterRest:
+			fs := newScope(scFunc, s)
+			r.declParam(fs, "p")
+			r.declParam(fs, "r")
+			r.scopeOf[k] = []*rscope{fs}
+			r.declare(k.b1, fs, true)
+		case fStaticBlock:
+			fs := newScope(scFunc, s)
 			r.scopeOf[k] = []*rscope{fs}
 			r.declare(k.b1, fs, true)
 		case fSwitchLet:
@@ -528,6 +541,28 @@ func (w *renderer) list(list []*sk, s *rscope) {
 			w.raw("){")
 			w.list(k.b1, sc[0])
 			w.raw("});")
+		case fDefaultOuterRest:
+			w.raw("(function(")
+			w.id(sc[0], "p", false)
+			w.raw("=")
+			w.id(sc[0], k.n, true)
+			w.raw(",...")
+			w.id(sc[0], "r", false)
+			w.raw("){")
+			w.list(k.b1, sc[0])
+			w.raw("});")
+		case fStaticBlock:
+			w.raw("(class{static{")
+			w.list(k.b1, sc[0])
+			w.raw("}});")
+		case fArrowComputedKey:
+			w.raw("(({[[")
+			w.id(sc[0], k.n, true)
+			w.raw("]]:")
+			w.id(sc[0], "p", false)
+			w.raw("})=>{")
+			w.list(k.b1, sc[0])
+			w.raw("});")
 		case fLetObj:
 			w.raw("let {")
 			w.id(s, k.n, false)
@@ -657,7 +692,7 @@ func headBodyNames(list []*sk, out map[string]bool) {
 					out[x] = true
 				}
 			}
-		case fParamDefault, fDefaultOuter:
+		case fParamDefault, fDefaultOuter, fDefaultOuterRest, fArrowComputedKey:
 			if declaresDirectly(k.b1, k.n) {
 				out[k.n] = true
 			}
@@ -797,9 +832,46 @@ func c04Run(c *engine.Ctx, in []byte, args map[string]string) {
 			got = append(got, s)
 		}
 	}
+	// property keys are not bindings: a shorthand property {n} whose variable is renamed has to be written out as n: v_i,
+	// so the keys of the output are the keys of the source plus the names of the shorthand properties whose variable prints under another name
+	keysOf := func(text string, toks []rjTok, shorthand func(idx int) bool) []string {
+		var keys []string
+		idx := -1
+		sig := func(i, d int) int { // next significant token in direction d
+			for i += d; i >= 0 && i < len(toks) && (toks[i].tt == js.WhitespaceToken || toks[i].tt == js.LineTerminatorToken); i += d {
+			}
+			return i
+		}
+		for i, t := range toks {
+			if t.tt != js.IdentifierToken {
+				continue
+			}
+			name := text[t.start:t.end]
+			if name == "f" || name == "l" {
+				continue
+			}
+			if j := sig(i, 1); j < len(toks) && toks[j].tt == js.ColonToken {
+				keys = append(keys, name)
+				continue
+			}
+			idx++
+			if a, b := sig(i, -1), sig(i, 1); shorthand != nil && a >= 0 && b < len(toks) && toks[a].tt == js.OpenBraceToken && toks[b].tt == js.CloseBraceToken && shorthand(idx) {
+				keys = append(keys, name)
+			}
+		}
+		return keys
+	}
 	if len(got) != len(occs) {
 		c.Fail("identifier-count", fmt.Sprintf("program %q has %d identifier occurrences, the renamed output %q has %d", in, len(occs), out, len(got)))
 		return
+	}
+	if srcRef := refJSLex([]byte(in), nil); !srcRef.outside {
+		wantKeys := keysOf(string(in), srcRef.toks, func(idx int) bool { return idx < len(got) && got[idx] != occs[idx].name })
+		gotKeys := keysOf(out, ref.toks, nil)
+		if strings.Join(wantKeys, ",") != strings.Join(gotKeys, ",") {
+			c.Fail("property-key-changed", fmt.Sprintf("program %q after renaming prints as %q: its property keys are %v, the source has %v (a shorthand property of a renamed variable must keep its key)", in, out, gotKeys, wantKeys))
+			return
+		}
 	}
 	hb := args["hb"]
 	knownFamily := false
@@ -1060,7 +1132,7 @@ func c04Finish(c *engine.Ctx, cov map[string]interface{}) string {
 func init() {
 	register(&engine.Check{
 		ID: "C04", Level: "exploration",
-		Rule:        "all scope skeletons with ≤3 nodes over 34 statement forms (var/let/const/class/function declarations, uses, assignments, blocks, if/else blocks, for(let;;), for-of with var/const, for-in, try/catch with and without binding, named and anonymous function expressions, parenthesised/single/async arrows, methods, parameters with default values referring to another parameter or to an outer/body name, object and array destructuring, switch with a lexical declaration, parenthesised lists/assignments/object literals that look like arrow heads, labels, named class expressions) × names {a,b}, with 4 nodes over a 19-form core and with 5 (6) nodes over a 10-form core; every order of statements (use before declaration, hoisting through nested and sibling blocks, shadowing at every level). A textbook resolver labels every identifier occurrence with its binding (or global) and predicts lexical redeclarations; the parser's resolution is observed by giving every Var in every Scope.Declared a fresh name, printing with JS(), re-lexing the output with the reference lexer and comparing the identifier sequence (same binding ⇔ same fresh name, globals unchanged), re-parsing it, and comparing every Var.Uses with the number of times its name is printed",
+		Rule:        "all scope skeletons with ≤3 nodes over 37 statement forms (var/let/const/class/function declarations, uses, assignments, blocks, if/else blocks, for(let;;), for-of with var/const, for-in, try/catch with and without binding, named and anonymous function expressions, parenthesised/single/async arrows, methods, parameters with default values referring to another parameter or to an outer/body name, object and array destructuring, switch with a lexical declaration, parenthesised lists/assignments/object literals that look like arrow heads, labels, named class expressions, rest parameters after a default value, class static blocks, computed keys in arrow parameter patterns) × names {a,b}, with 4 nodes over a 19-form core and with 5 (6) nodes over a 10-form core; every order of statements (use before declaration, hoisting through nested and sibling blocks, shadowing at every level). A textbook resolver labels every identifier occurrence with its binding (or global) and predicts lexical redeclarations; the parser's resolution is observed by giving every Var in every Scope.Declared a fresh name, printing with JS(), re-lexing the output with the reference lexer and comparing the identifier sequence (same binding ⇔ same fresh name, globals unchanged), re-parsing it, and comparing every Var.Uses with the number of times its name is printed",
 		Assumptions: []string{"programs on which 'var/function hoist to the enclosing function' and ES2022 disagree or that are invalid for reasons other than a lexical redeclaration (var vs let of one name, function vs var, duplicate parameters, block-level function declarations, Annex B catch-parameter cases) are counted as skipped_ambiguous", "a body-level var of the same name as a parameter denotes the parameter's binding"},
 		Setup:       c04Setup, Work: c04Work, Finish: c04Finish,
 	})
